@@ -89,6 +89,10 @@ func asReadError(err error, re *frame.ReadError) bool {
 }
 
 func implHbcheck(t []string) string {
+	return undisturbed(func() string { return implHbcheck1(t) })
+}
+
+func implHbcheck1(t []string) string {
 	c16Dialects()
 	disable := t[1] == "1"
 	periodMs, _ := strconv.Atoi(t[4])
@@ -462,8 +466,17 @@ func genC16(r *rngT, n int, tier string) {
 		var hs []string
 		for c := 0; c < k; c++ {
 			var as []string
-			// few senders, so that repeats (no second request) are common
-			for j := 0; j < r.Intn(8); j++ {
+			// few senders, so that repeats (no second request) are common; every other channel hears only two senders, at length:
+			// the same sender as ArduPilot, as something else, as ArduPilot again ...
+			pool := [][2]int{}
+			nArr := r.Intn(8)
+			if r.bool() {
+				for q := 0; q < 2; q++ {
+					pool = append(pool, [2]int{[]int{1, 2, 3, 9}[r.Intn(4)], 1 + r.Intn(2)})
+				}
+				nArr = r.Intn(14)
+			}
+			for j := 0; j < nArr; j++ {
 				kind := "A"
 				switch r.Intn(5) {
 				case 0:
@@ -473,7 +486,12 @@ func genC16(r *rngT, n int, tier string) {
 				}
 				// system 9 is the node's own OutSystemID (another component of the same system, or a misconfigured peer): the
 				// rule is per (channel, system, component) and knows no exception
-				as = append(as, fmt.Sprintf("%d.%d.%s", []int{1, 2, 3, 9}[r.Intn(4)], 1+r.Intn(2), kind))
+				sysid, compid := []int{1, 2, 3, 9}[r.Intn(4)], 1+r.Intn(2)
+				if len(pool) > 0 {
+					pc := pool[r.Intn(len(pool))]
+					sysid, compid = pc[0], pc[1]
+				}
+				as = append(as, fmt.Sprintf("%d.%d.%s", sysid, compid, kind))
 			}
 			hs = append(hs, dash(strings.Join(as, ",")))
 		}
